@@ -133,8 +133,8 @@ def run(text, std):
 
 
 def check(payload):
-    P = payload_program(payload)
     std = payload["std"]
+    P = payload_program(payload) if payload.get("program") else None
     viols, digs = [], []
     mons = {"mutants_checked": 0, "budget_exceeded": 0}
     tally = {"class": [], "rejected_with": []}
@@ -167,6 +167,8 @@ def check(payload):
         except Exception:
             kind = "?"
         key = "accepted:%s@%s" % (cls, kind)
+        if info and any("attached to no tree node" in x for x in info):
+            key = "accepted-with-statements-dropped:%s@%s" % (cls, kind)
         if key not in seen:
             seen.add(key)
             viols.append(viol(key, "%s accepted after mutation %s [%s]; reader-item conservation: %s" % (
